@@ -7,7 +7,8 @@
 //
 // Protocol (one line per op, numbers as exact tokens):
 //   C05 upd <exact> S O | T_a (S*S, s-major) | Ob_a (S*O, s1-major) | R_a (S*S) | b (S)
-//        | dense <block> | sparse <block> | generic <block>
+//        | dense <block> | sparse <block> | generic <block> | usereigen <block>
+//   C05 updc … same layout; dense = Model(UserModel) and sparse = SparseModel(that dense model) (converting constructors)
 //     block = partial(S) reward(1) { unnorm(S) norm(S) punnorm(S) pnorm(S) sosa(S*S) } for o = 0..O-1
 //   C05 hist <rep> <exact> S A O | T (A*S*S, a-major) | Ob (A*S*O, a-major) | b0 (S) | n a1 o1 .. an on
 //        | { alpha_t(S) bel_t(S) } for t = 1..n
@@ -55,6 +56,24 @@ struct UserModel {
         return {s1, 0, r};
     }
 };
+// A user-defined model that additionally exposes Eigen matrices — of another storage order
+// (column-major) than the library's own row-major Matrix2D — so the Eigen branch is instantiated
+// with matrix types the library did not choose.
+struct UserEigenModel : UserModel {
+    std::vector<Eigen::MatrixXd> Tm, Om;
+    Eigen::MatrixXd Rm;
+    explicit UserEigenModel(const Tables * tt) : UserModel{tt}, Tm(tt->A, Eigen::MatrixXd(tt->S, tt->S)), Om(tt->A, Eigen::MatrixXd(tt->S, tt->O)), Rm(tt->S, tt->A) {
+        Rm.setZero();
+        for (size_t a = 0; a < t->A; ++a) for (size_t s = 0; s < t->S; ++s) {
+            for (size_t s1 = 0; s1 < t->S; ++s1) { Tm[a](s, s1) = t->T[s][a][s1]; Rm(s, a) += t->R[s][a][s1] * t->T[s][a][s1]; }
+            for (size_t o = 0; o < t->O; ++o) Om[a](s, o) = t->Ob[s][a][o];
+        }
+    }
+    const Eigen::MatrixXd & getTransitionFunction(size_t a) const { return Tm[a]; }
+    const Eigen::MatrixXd & getObservationFunction(size_t a) const { return Om[a]; }
+    const Eigen::MatrixXd & getRewardFunction() const { return Rm; }
+};
+static_assert(PO::IsModelEigen<UserEigenModel>, "UserEigenModel must take the Eigen branch");
 static_assert(PO::IsModel<UserModel>, "UserModel must satisfy POMDP::IsModel");
 static_assert(!PO::IsModelEigen<UserModel>, "UserModel must take the generic branch");
 using DenseM = PO::Model<AI::MDP::Model>;
@@ -198,20 +217,29 @@ static void emitBlock(Line & l, const M & m, const char * rep, const Tables & t,
 
 struct Models {
     Tables t;
-    std::unique_ptr<DenseM> dense;
-    std::unique_ptr<SparseM> sparse;
+    std::unique_ptr<DenseM> dense, denseFromUser;
+    std::unique_ptr<SparseM> sparse, sparseFromDense;
     UserModel user;
+    std::unique_ptr<UserEigenModel> userEigen;
     explicit Models(Tables tt) : t(std::move(tt)) {
         dense.reset(new DenseM(t.O, t.Ob, t.S, t.A, t.T, t.R, t.discount));
         sparse.reset(new SparseM(t.O, t.Ob, t.S, t.A, t.T, t.R, t.discount));
         user.t = &t;
+        userEigen.reset(new UserEigenModel(&t));
+        // the converting constructors: user-defined -> dense -> sparse
+        denseFromUser.reset(new DenseM(user));
+        // SparseModel(const M&) re-validates the rows AFTER dropping sub-threshold entries and may reject
+        // a model the dense class accepted (model-validity matter, property C06): then no converted lines.
+        try { sparseFromDense.reset(new SparseM(*denseFromUser)); }
+        catch (const std::invalid_argument &) { std::printf("#stat conv_sparse_rejected 1\n"); }
     }
     Models(const Models &) = delete;
 };
 
-static void emitUpd(const Models & M, const AI::Vector & b, size_t a, bool exact) {
+static void emitUpd(const Models & M, const AI::Vector & b, size_t a, bool exact, bool conv = false) {
     const Tables & t = M.t;
-    Line l; l << "C05" << "upd" << exact << t.S << t.O << "|";
+    if (conv && !M.sparseFromDense) conv = false;
+    Line l; l << "C05" << (conv ? "updc" : "upd") << exact << t.S << t.O << "|";
     for (size_t s = 0; s < t.S; ++s) for (size_t s1 = 0; s1 < t.S; ++s1) l << t.T[s][a][s1];
     l << "|";
     for (size_t s1 = 0; s1 < t.S; ++s1) for (size_t o = 0; o < t.O; ++o) l << t.Ob[s1][a][o];
@@ -219,9 +247,10 @@ static void emitUpd(const Models & M, const AI::Vector & b, size_t a, bool exact
     for (size_t s = 0; s < t.S; ++s) for (size_t s1 = 0; s1 < t.S; ++s1) l << t.R[s][a][s1];
     l << "|";
     putVec(l, b);
-    l << "|" << "dense";   emitBlock(l, *M.dense, "dense", t, b, a);
-    l << "|" << "sparse";  emitBlock(l, *M.sparse, "sparse", t, b, a);
+    l << "|" << "dense";   emitBlock(l, conv ? *M.denseFromUser : *M.dense, "dense", t, b, a);
+    l << "|" << "sparse";  emitBlock(l, conv ? *M.sparseFromDense : *M.sparse, "sparse", t, b, a);
     l << "|" << "generic"; emitBlock(l, M.user, "generic", t, b, a);
+    l << "|" << "usereigen"; emitBlock(l, *M.userEigen, "usereigen", t, b, a);
     l.emit();
 }
 
@@ -301,7 +330,7 @@ static void runFixed(long idx) {
     for (size_t a = 0; a < t.A; ++a) {
         for (size_t c = 0; c < t.S; ++c) { AI::Vector b(t.S); b.setZero(); b[c] = 1.0; emitUpd(M, b, a, true); }
         { AI::Vector b(t.S); b.setZero(); b[0] = 0.5; b[t.S - 1] += 0.5; emitUpd(M, b, a, true); }
-        if (t.S == 3) { AI::Vector b(3); b << 0.125, 0.625, 0.25; emitUpd(M, b, a, true); }
+        if (t.S == 3) { AI::Vector b(3); b << 0.125, 0.625, 0.25; emitUpd(M, b, a, true); emitUpd(M, b, a, true, true); }
     }
     // the helpers must tolerate a null output pointer (documented "basic nullptr check")
     {
@@ -319,6 +348,7 @@ static void runFixed(long idx) {
     emitHist(*M.dense, "dense", t, b0, rng, 4, true);
     emitHist(*M.sparse, "sparse", t, b0, rng, 4, true);
     emitHist(M.user, "generic", t, b0, rng, 4, true);
+    emitHist(*M.userEigen, "usereigen", t, b0, rng, 4, true);
 }
 
 void verif::verif_case(Rng & rng, long idx, const std::string & tier) {
@@ -339,16 +369,17 @@ void verif::verif_case(Rng & rng, long idx, const std::string & tier) {
         AI::Vector b = makeBelief(rng, S, st, shape);
         size_t a = rng.below(A);
         std::printf("#stat belief_%s 1\n", shape == 0 ? "corner" : shape == 1 ? "face" : "interior");
-        emitUpd(M, b, a, exact);
+        emitUpd(M, b, a, exact, k == 2);       // the third belief goes through the converted models
     }
     // one short history per representation (exact while the dyadic denominators fit a double: 8 + 3*12 bits)
     AI::Vector b0 = makeBelief(rng, S, st, (int)rng.below(3));
     const bool hexact = st == ST_DYADIC;    // tiny entries (21 bits each) overflow the 53-bit mantissa after two steps
     size_t n = (size_t)rng.range(1, hexact ? 3 : 6);
-    Rng r1 = rng, r2 = rng, r3 = rng;
+    Rng r1 = rng, r2 = rng, r3 = rng, r4 = rng;
     emitHist(*M.dense, "dense", M.t, b0, r1, n, hexact);
     emitHist(*M.sparse, "sparse", M.t, b0, r2, n, hexact);
     emitHist(M.user, "generic", M.t, b0, r3, n, hexact);
+    emitHist(*M.userEigen, "usereigen", M.t, b0, r4, n, hexact);
 }
 
 VERIF_MAIN
